@@ -136,6 +136,13 @@ def mutants_at(base, pos: int):
             if sizes[tk]:
                 yield f"{tk}-extra-entry-beyond-size", insert(
                     [jwire.mkrow(tk, {"id": sizes[tk] + 1, "value": "zz"})])
+    # a later options row that declares something this reader does not support
+    if kind in ("triple", "quad", "graph_start") and pos > 0:
+        first = rows[0][2]
+        if first["kind"] == "options":
+            for label, change in (("later-options-version-99", {"version": 99}),
+                                  ("later-options-physical-type", {"physical_type": pt % 3 + 1})):
+                yield label, insert([jwire.mkrow("options", {**first["v"], **change})])
     # rows of a forbidden kind inserted here
     forbidden = {1: ("quad", "graph_start", "graph_end"), 2: ("triple", "graph_start", "graph_end"),
                  3: ("quad",)}[pt]
@@ -170,6 +177,13 @@ def mutants_at(base, pos: int):
                     nt = _set_ref(t, which, val)
                     if nt is not None:
                         yield f"{which}-ref-{label}", replace(jwire.mkrow(kind, {**v, slot: nt}))
+            # a name id far beyond any table: 4096 * j + k, for names k that are in use
+            filled_now = filled_before(base, pos)
+            for k in sorted(filled_now["name"])[:3]:
+                for j in (1, 2):
+                    nt = _set_ref(t, "name", 4096 * j + k)
+                    if nt is not None:
+                        yield "name-ref-far-beyond", replace(jwire.mkrow(kind, {**v, slot: nt}))
             # a reference into a gap: an entry with an explicit id two beyond the filled part
             # is sent first, then the slot in between (never filled) is referenced
             filled = filled_before(base, pos)
